@@ -49,6 +49,7 @@ type FuncDef struct {
 	Body        string // Gallina term, indented by two spaces
 	MayPanic    bool   // result is wrapped in outcome
 	Unsupported string // non-empty: reason why the function is not translated
+	Pre         string // complete auxiliary definition emitted first (go_X_rec of a recursive function)
 	Line        int    // line of the declaration in the source file
 }
 
@@ -65,7 +66,8 @@ type fnInfo struct {
 	obj       *types.Func
 	name      string
 	callees   []*fnInfo // functions of the file referenced by the body, in source order
-	recursive bool
+	recursive bool      // the function can reach itself in the call graph
+	mutual    bool      // ... through another function
 	def       *FuncDef
 }
 
@@ -255,6 +257,15 @@ func TranslateFile(file string) (*Unit, error) {
 		}
 		walk(fi)
 		fi.recursive = reach[fi]
+		// reachable from a callee other than itself: not plain self-recursion
+		reach = map[*fnInfo]bool{}
+		for _, c := range fi.callees {
+			if c != fi && !reach[c] {
+				reach[c] = true
+				walk(c)
+			}
+		}
+		fi.mutual = reach[fi]
 	}
 
 	// Callee-first order: depth-first post-order over the source order.
@@ -327,21 +338,26 @@ func (u *unit) translateFunc(fi *fnInfo) {
 		def.Unsupported = r
 		return
 	}
+	recParam := -1
 	if fi.recursive {
-		def.Unsupported = "recursion at " + u.pos(fd.Pos())
-		return
+		if recParam = u.recursionParam(fi); fi.mutual || recParam < 0 {
+			def.Unsupported = "recursion at " + u.pos(fd.Pos())
+			return
+		}
 	}
 	for _, c := range fi.callees {
-		if c.def.Unsupported != "" {
+		if c != fi && c.def.Unsupported != "" {
 			def.Unsupported = "calls unsupported " + c.def.CoqName
 			return
 		}
 	}
 	// First assume the function cannot panic; when the body turns out to
 	// contain a panic-able operation translate it again in outcome style.
-	t := newFnTr(u, fi, false)
+	// A recursive function is always outcome-typed (it can run out of fuel).
+	t := newFnTr(u, fi, fi.recursive)
+	t.rec = fi.recursive
 	t.run()
-	if t.bad == "" && t.nhoist > 0 {
+	if t.bad == "" && t.nhoist > 0 && !t.mayPanic {
 		t = newFnTr(u, fi, true)
 		t.run()
 	}
@@ -350,6 +366,79 @@ func (u *unit) translateFunc(fi *fnInfo) {
 		return
 	}
 	def.Params, def.Result, def.Body, def.MayPanic = t.params, t.result, t.body, t.mayPanic
+	if fi.recursive {
+		// go_X_rec is structurally recursive on fuel; go_X supplies fuel from
+		// the parameter that every self-call decrements.
+		for _, n := range t.paramNames {
+			if n == "_" {
+				def.Unsupported = "recursion with a blank parameter at " + u.pos(fd.Pos())
+				return
+			}
+		}
+		rec := def.CoqName + "_rec"
+		def.Pre = fmt.Sprintf("Fixpoint %s (rfuel : nat) %s {struct rfuel} : %s :=\n  match rfuel with\n  | O => Fuel\n  | S rfuel' =>\n%s\n  end.\n",
+			rec, t.params, t.result, t.body)
+		def.Body = fmt.Sprintf("  %s (S (Z.to_nat (%s + 1))) %s", rec, t.paramNames[recParam], strings.Join(t.paramNames, " "))
+	}
+}
+
+// recursionParam returns the index (among receiver-less parameters) of an
+// integer parameter p such that every self-call of the function passes
+// syntactically "p - 1" in p's position, or -1.  Every reference to the
+// function in its own body must be such a call.
+func (u *unit) recursionParam(fi *fnInfo) int {
+	if fi.decl.Recv != nil || fi.decl.Body == nil {
+		return -1
+	}
+	sig, ok := fi.obj.Type().(*types.Signature)
+	if !ok || sig.Variadic() {
+		return -1
+	}
+	var calls []*ast.CallExpr
+	refs := 0
+	ast.Inspect(fi.decl.Body, func(n ast.Node) bool {
+		switch n := n.(type) {
+		case *ast.Ident:
+			if u.info.Uses[n] == fi.obj {
+				refs++
+			}
+		case *ast.CallExpr:
+			if id, ok := n.Fun.(*ast.Ident); ok && u.info.Uses[id] == fi.obj {
+				calls = append(calls, n)
+			}
+		}
+		return true
+	})
+	if len(calls) == 0 || refs != len(calls) {
+		return -1
+	}
+	for i := 0; i < sig.Params().Len(); i++ {
+		p := sig.Params().At(i)
+		if !isInteger(p.Type()) || p.Name() == "" || p.Name() == "_" {
+			continue
+		}
+		ok := true
+		for _, c := range calls {
+			if len(c.Args) != sig.Params().Len() {
+				return -1
+			}
+			be, isBin := c.Args[i].(*ast.BinaryExpr)
+			if !isBin || be.Op != token.SUB {
+				ok = false
+				break
+			}
+			id, isId := be.X.(*ast.Ident)
+			lit, isLit := be.Y.(*ast.BasicLit)
+			if !isId || u.info.Uses[id] != p || !isLit || lit.Kind != token.INT || lit.Value != "1" {
+				ok = false
+				break
+			}
+		}
+		if ok {
+			return i
+		}
+	}
+	return -1
 }
 
 // prescan rejects constructs that are outside the subset wherever they occur
@@ -363,7 +452,16 @@ func (u *unit) prescan(fd *ast.FuncDecl) string {
 		what := ""
 		switch n := n.(type) {
 		case *ast.ForStmt:
-			what = "for loop"
+			if n.Init != nil || n.Post != nil {
+				what = "for loop with init or post statement"
+				break
+			}
+			ast.Inspect(n.Body, func(m ast.Node) bool {
+				if _, nested := m.(*ast.ForStmt); nested {
+					what = "nested loop"
+				}
+				return what == ""
+			})
 		case *ast.RangeStmt:
 			what = "range loop"
 		case *ast.GoStmt:
@@ -443,6 +541,10 @@ func (u *Unit) Render(rel string) string {
 		if f.Unsupported != "" {
 			fmt.Fprintf(&sb, "Definition %s : Unsupported := unsupported %s.\n", f.CoqName, coqString(f.Unsupported))
 			continue
+		}
+		if f.Pre != "" {
+			sb.WriteString(f.Pre)
+			sb.WriteString("\n")
 		}
 		head := "Definition " + f.CoqName
 		if f.Params != "" {
